@@ -1000,3 +1000,141 @@ twin('C13-twin-chunks-helper-var', 'C13',
 twin('C13-twin-rename-loop-var', 'C13',
      'rename the dispatch loop variable',
      [(P+'utils/csc_to_csr_parallel.py', "i0", "lo", 4)])
+
+
+# ----------------------------------------------------------------------
+# C15
+# ----------------------------------------------------------------------
+mutant('C15-reader-renamed-dataset', 'C15',
+       'the HDF5 reader looks for avg_correlation instead of '
+       'average_correlation',
+       [(P+'utils/output_utils.py',
+         "        corr = src['average_correlation'][()]\n",
+         "        corr = src['avg_correlation'][()]\n")],
+       'R-SCHEMA/hdf5-datasets')
+mutant('C15-reader-swaps-arrays', 'C15',
+       'the reader fills avg_correlation from the probability array',
+       [(P+'utils/output_utils.py',
+         "                'avg_correlation': corr[i_cell, i_level],\n",
+         "                'avg_correlation': prob[i_cell, i_level],\n")],
+       'R-SCHEMA/hdf5-field-map', 'avg_correlation')
+mutant('C15-writer-swaps-runner-up', 'C15',
+       'the writer stores runner-up correlations in the probability array',
+       [(P+'utils/output_utils.py',
+         "                    r_prob[i_cell, i_level, i_r] = cell[level][\n"
+         "                            'runner_up_probability'][i_r]\n",
+         "                    r_prob[i_cell, i_level, i_r] = cell[level][\n"
+         "                            'runner_up_correlation'][i_r]\n")],
+       'R-SCHEMA/hdf5-field-map')
+mutant('C15-writer-zip-misaligned', 'C15',
+       'dataset names and arrays are zipped in a different order',
+       [(P+'utils/output_utils.py',
+         "                              (assignments,\n"
+         "                               prob,\n"
+         "                               agg_prob,\n"
+         "                               corr,\n",
+         "                              (assignments,\n"
+         "                               agg_prob,\n"
+         "                               prob,\n"
+         "                               corr,\n")],
+       'R-SCHEMA/hdf5-field-map')
+mutant('C15-padding-zero', 'C15',
+       'runner-up arrays are padded with 0 (a valid node index)',
+       [(P+'utils/output_utils.py', "    bad_val = -1\n",
+         "    bad_val = 0\n")],
+       'R-CONST/hdf5-padding')
+mutant('C15-reader-stop-le', 'C15',
+       'the reader stops on `<= 0`, dropping runners-up with index 0',
+       [(P+'utils/output_utils.py',
+         "                        if r_assignment[i_cell, i_level, i_r] < 0:",
+         "                        if r_assignment[i_cell, i_level, i_r] <= "
+         "0:")],
+       'R-CONST/hdf5-padding')
+mutant('C15-reader-runner-up-always', 'C15',
+       'the reader gives inferred levels runner-up lists too',
+       [(P+'utils/output_utils.py',
+         "            if directly_assigned[i_level]:\n"
+         "                this.update({",
+         "            if True:\n"
+         "                this.update({")],
+       'R-GUARD/hdf5-runner-up-where-direct')
+mutant('C15-consumer-unknown-key', 'C15',
+       'the HDF5 writer reads a record key nobody produces',
+       [(P+'utils/output_utils.py',
+         "            corr[i_cell, i_level] = cell[level]"
+         "['avg_correlation']\n",
+         "            corr[i_cell, i_level] = cell[level]"
+         "['average_correlation']\n")],
+       'R-SCHEMA/record-keys')
+mutant('C15-producer-renames-key', 'C15',
+       'the election renames a record key',
+       [(P+'type_assignment/election.py',
+         "                    'avg_correlation': corr,\n",
+         "                    'average_correlation': corr,\n")],
+       'R-SCHEMA/record-keys')
+mutant('C15-runner-up-filter-differs', 'C15',
+       'runner-up probabilities are not filtered by the validity flag',
+       [(P+'type_assignment/election.py',
+         "                    runner_up_probability = [\n"
+         "                        this[3] for this in r_up if this[1]]\n",
+         "                    runner_up_probability = [\n"
+         "                        this[3] for this in r_up]\n")],
+       'R-SAMEVAL/runner-up-filter')
+mutant('C15-width-no-plus-one', 'C15',
+       'n_assignments = n_runners_up (no +1)',
+       [(P+'cli/from_specified_markers.py',
+         "        n_assignments=type_assignment_config['n_runners_up']+1,\n",
+         "        n_assignments=type_assignment_config['n_runners_up'],\n")],
+       'R-CONST/runner-up-width')
+mutant('C15-confidence-key-swapped', 'C15',
+       'the CSV confidence column uses the probability for single '
+       'iteration runs',
+       [(P+'cli/from_specified_markers.py',
+         "            confidence_key = 'avg_correlation'\n"
+         "            confidence_label = 'correlation_coefficient'\n"
+         "        else:\n"
+         "            confidence_key = 'bootstrapping_probability'\n",
+         "            confidence_key = 'bootstrapping_probability'\n"
+         "            confidence_label = 'correlation_coefficient'\n"
+         "        else:\n"
+         "            confidence_key = 'avg_correlation'\n")],
+       'R-CONST/confidence-key')
+mutant('C15-csv-three-decimals', 'C15', 'three decimals in the CSV',
+       [(P+'utils/output_utils.py', "float_format='%.4f'",
+         "float_format='%.3f'")],
+       'R-CONST/csv-format')
+mutant('C15-csv-no-version-line', 'C15',
+       'the version comment line is not written',
+       [(P+'utils/output_utils.py',
+         "        dst.write(version_str)\n", "")],
+       'R-MUST/csv-header', 'version')
+mutant('C15-csv-rows-before-header', 'C15',
+       'the hierarchy line is written after the rows',
+       [(P+'utils/output_utils.py',
+         "        dst.write(f'# taxonomy hierarchy = {str_hierarchy}\\n')\n",
+         ""),
+        (P+'utils/output_utils.py',
+         "        csv_df.to_csv(dst, index=False, float_format='%.4f')\n",
+         "        csv_df.to_csv(dst, index=False, float_format='%.4f')\n"
+         "        dst.write(f'# taxonomy hierarchy = {str_hierarchy}\\n')\n")],
+       'R-MUST/csv-header', 'hierarchy')
+
+twin('C15-twin-direct-create', 'C15',
+     'one dataset created directly instead of in the zip loop',
+     [(P+'utils/output_utils.py',
+       "        dst.create_dataset(\n            'cell_id',\n"
+       "            data=cell_id)\n",
+       "        dst.create_dataset(\n            'cell_id',\n"
+       "            data=cell_id)\n"
+       "        dst.create_dataset(\n            'n_cells',\n"
+       "            data=n_cells)\n")])
+twin('C15-twin-reader-local-names', 'C15',
+     'rename array variables in the reader',
+     [(P+'utils/output_utils.py', "agg_prob", "aggregate", 7)])
+twin('C15-twin-pad-constant-inline', 'C15',
+     'padding written as np.full(..., -1)',
+     [(P+'utils/output_utils.py',
+       "        r_assignments = bad_val*np.ones(\n"
+       "            (n_cells, n_levels, n_runners_up), dtype=int)\n",
+       "        r_assignments = np.full(\n"
+       "            (n_cells, n_levels, n_runners_up), -1, dtype=int)\n")])
